@@ -40,6 +40,17 @@ var c20Templates = []struct{ name, code string }{
 	{"or", "r = (%s | 1) ?? \"E\""}, {"eq", "r = (%s == 5) ?? \"E\""}, {"lt", "r = (%s < 3) ?? \"E\""}, {"land", "r = (%s && true) ?? \"E\""},
 	{"lor", "r = (%s || false) ?? \"E\""}, {"concat", "r = (\"s\" + %s) ?? \"E\""}, {"append", "r = ([0] + %s) ?? \"E\""},
 	{"append-l", "r = (%s + [9]) ?? \"E\""},
+	// the operand on the right of every binary operator, and next to the neighbours of +-(2^53+1) that float64 cannot tell apart
+	{"sub-r", "r = (10 - %s) ?? \"E\""}, {"mul-r", "r = (2 * %s) ?? \"E\""}, {"div-r", "r = (10 / %s) ?? \"E\""}, {"mod-r", "r = (10 %% %s) ?? \"E\""},
+	{"shl-r", "r = (1 << %s) ?? \"E\""}, {"and-r", "r = (7 & %s) ?? \"E\""}, {"eq-r", "r = (5 == %s) ?? \"E\""}, {"ne-r", "r = (5 != %s) ?? \"E\""},
+	{"lt-r", "r = (3 < %s) ?? \"E\""}, {"ge-r", "r = (3 >= %s) ?? \"E\""}, {"land-r", "r = (true && %s) ?? \"E\""}, {"lor-r", "r = (false || %s) ?? \"E\""},
+	{"lt-big-r", "r = (9007199254740992 < %s) ?? \"E\""}, {"le-big-r", "r = (9007199254740994 <= %s) ?? \"E\""},
+	{"gt-big-r", "r = (9007199254740994 > %s) ?? \"E\""}, {"ge-big-r", "r = (9007199254740992 >= %s) ?? \"E\""},
+	{"eq-big-r", "r = (9007199254740992 == %s) ?? \"E\""}, {"ne-big-r", "r = (9007199254740992 != %s) ?? \"E\""},
+	{"gt-negbig-r", "r = (-9007199254740992 > %s) ?? \"E\""}, {"le-negbig-r", "r = (-9007199254740992 <= %s) ?? \"E\""},
+	{"lt-big-l", "r = (%s < 9007199254740994) ?? \"E\""}, {"ge-big-l", "r = (%s >= 9007199254740994) ?? \"E\""},
+	{"gt-big-l", "r = (%s > 9007199254740992) ?? \"E\""}, {"eq-big-l", "r = (%s == 9007199254740992) ?? \"E\""},
+	{"lt-negbig-l", "r = (%s < -9007199254740992) ?? \"E\""}, {"sub-big-r", "r = (9007199254740992 - %s) ?? \"E\""},
 	{"index", "r = (%s[0]) ?? \"E\""}, {"index-by", "r = ([7, 8, 9][%s]) ?? \"E\""}, {"slice", "r = (%s[0:1]) ?? \"E\""},
 	{"slice-by", "r = ([7, 8, 9][%s:]) ?? \"E\""}, {"len", "r = len(%s) ?? \"E\""}, {"in-r", "r = (1 in %s) ?? \"E\""},
 	{"in-l", "r = (%s in [5, \"ab\"]) ?? \"E\""}, {"call", "r = %s(1) ?? \"E\""}, {"spread", "r = func(a, b, c) { return b }(%s...) ?? \"E\""},
